@@ -335,6 +335,10 @@ pub fn run(ctx: &Ctx, rep: &mut Report) {
                     continue;
                 }
             }
+            // moving nothing: the statement neither demands nor forbids it (approve(0) revokes and stays)
+            if amount == 0 && want == Want::Ok && matches!(op, "mint" | "mint_from" | "transfer" | "transfer_from" | "burn" | "burn_from") {
+                want = Want::Either("zero-amount");
+            }
             // a few calls without the actor's authorisation (C07 owns the full matrix)
             let unauth = rng.chance(1, 25);
             if unauth {
